@@ -581,8 +581,9 @@ func planC06(g *Gen, tier string) GenOutput {
 			}
 			cols = append(cols, c)
 		}
-		// a payload column that identifies the row
-		id := Col{Key: "id", Name: "id", Data: []Cell{}}
+		// a payload column that identifies the row (sometimes under a name the library itself uses)
+		idName := BStr([]string{"id", "id", "index", "stat", "GroupKey"}[g.r.Intn(5)])
+		id := Col{Key: idName, Name: idName, Data: []Cell{}}
 		for r := 0; r < nr; r++ {
 			id.Data = append(id.Data, IntCell("int", int64(r)))
 		}
@@ -674,7 +675,7 @@ var locAlphabet = []Cell{IntCell("int", 1), IntCell("int", 2), StrCell("1"), Str
 // ---------------- C08: selection ----------------
 func planC08(g *Gen, tier string) GenOutput {
 	res := GenOutput{Stats: map[string]int{}}
-	spec := FrameSpec{MinRows: 0, MaxRows: 5, MinCols: 0, MaxCols: 4, Kinds: []string{"int", "pstr", "f64", "mixed"}, NilProb: 0.15}
+	spec := FrameSpec{MinRows: 0, MaxRows: 5, MinCols: 0, MaxCols: 4, Kinds: []string{"int", "pstr", "f64", "mixed", "f64", "time", "bool"}, NilProb: 0.15, Wild: true}
 	kinds := []string{"row", "head", "tail", "rowslice", "iloc", "loc", "filter", "multiselect", "droprow", "dropcolumn", "columnnames", "nrows", "ncols"}
 	// exhaustive boundary stream on small frames
 	maxRows := 4
@@ -809,6 +810,36 @@ func (g *Gen) csvFrame(maxRows, maxCols int) Frame {
 
 func planC09(g *Gen, tier string) GenOutput {
 	res := GenOutput{Stats: map[string]int{}}
+	// rows made only of empty strings, in 1..3 columns, at every position
+	for nc := 1; nc <= 3; nc++ {
+		for pos := 0; pos < 3; pos++ {
+			cols := []Col{}
+			for c := 0; c < nc; c++ {
+				col := Col{Key: BStr([]string{"a", "b", "c"}[c]), Name: BStr([]string{"a", "b", "c"}[c]), Data: []Cell{}}
+				for r := 0; r < 3; r++ {
+					if r == pos {
+						col.Data = append(col.Data, StrCell(""))
+					} else {
+						col.Data = append(col.Data, StrCell(fmt.Sprintf("v%d%d", c, r)))
+					}
+				}
+				cols = append(cols, col)
+			}
+			ops := []Op{{K: "tocsv", F: 0}, {K: "csvroundtrip", F: 0}, {K: "csvroundtrip", F: 0, ViaFile: true}}
+			res.Hists = append(res.Hists, RunHist("all-empty-row", []Frame{mkFrame(cols...)}, ops))
+			bump(res.Stats, "all-empty-row")
+		}
+	}
+	// frames with columns but no rows, through the file variants too
+	for nc := 1; nc <= 2; nc++ {
+		cols := []Col{{Key: "a", Name: "a", Data: []Cell{}}}
+		if nc == 2 {
+			cols = append(cols, Col{Key: "b,c", Name: "b,c", Data: []Cell{}})
+		}
+		ops := []Op{{K: "tocsv", F: 0, ViaFile: true}, {K: "csvroundtrip", F: 0, ViaFile: true}, {K: "csvroundtrip", F: 0}}
+		res.Hists = append(res.Hists, RunHist("no-rows", []Frame{mkFrame(cols...)}, ops))
+		bump(res.Stats, "no-rows")
+	}
 	n := scale(tier, 400, 6000)
 	for i := 0; i < n; i++ {
 		f := g.csvFrame(scale(tier, 6, 9), 4)
